@@ -79,8 +79,10 @@ fn one<T: El>(tr: &mut Trace, rng: &mut Rng, nx: usize, ny: usize, cx: &str, cy:
             }
         }
     }
-    let ox = gen::queries_outside(rng, &x, 50.0, 3);
-    let oy = gen::queries_outside(rng, &y, 50.0, 3);
+    let mut ox = gen::queries_outside(rng, &x, 50.0, 3);
+    let mut oy = gen::queries_outside(rng, &y, 50.0, 3);
+    ox.extend(gen::queries_far(&x, false));
+    oy.extend(gen::queries_far(&y, false));
     for ex in [false, true] {
         let b = match do_build2(tr, &cfg, &Strat2::Bilinear { ex }, &extra) {
             Some(b) => b,
